@@ -236,6 +236,14 @@ def c31_vectors(states, seed):
                     lst = by[o]
                     v[o] = lst[(i * (2 * j + 3) + seed * 7 + j) % len(lst)]
             vecs.append(v)
+    # switch independence: the driver runs each of these once per bool field of agent.Config; that field takes the
+    # triple "hot", all other switches (kinds or, lw) the triple x
+    for i, (x, y, _z) in enumerate(by.get("hot", [])):
+        v = {"a": "vec", "focus": "hot", "hot": y, "or": x, "lw": x}
+        for j, o in enumerate(["ov", "map", "list"]):
+            lst = by[o]
+            v[o] = lst[(i * (2 * j + 3) + seed * 11 + j) % len(lst)]
+        vecs.append(v)
     return vecs
 
 
@@ -251,7 +259,7 @@ def run_c31(ctx, replay):
         mc, states = dump_states(ctx, "Gen_ConfigMerge", gcfg % "none", keep=lambda s: s["ph"] == "in", workers=2)
         if mc.violated:
             raise vlib.Inconclusive("the merge definition violates %s -- spec error, no verdict" % mc.violated)
-        for d in ("never_merged", "shared_tags", "aliased_list"):
+        for d in ("never_merged", "shared_tags", "aliased_list", "crossed_switch"):
             expect_model_violation(ctx, "Gen_ConfigMerge", gcfg % d, d)
         scheds = [[v] for v in c31_vectors(states, ctx.seed)]
     tcfg = TRACE_CFG + consts
@@ -502,6 +510,7 @@ def run_c27(ctx, replay):
         if mc.violated:
             raise vlib.Inconclusive("the contract definition violates %s -- spec error, no verdict" % mc.violated)
         expect_model_violation(ctx, "Gen_HandlerContract", gcfg % "per_item", "one run per matching filter item")
+        expect_model_violation(ctx, "Gen_HandlerContract", gcfg % "empty_update_ignored", "reload to an empty handler list ignored")
         inputs = sorted((s["inp"] for s in states), key=lambda i: json.dumps(i, sort_keys=True))
         scheds = [[i] for i in inputs]
     tp = execute(ctx, binary, "handler", scheds, "h", timeout=3000)
@@ -516,7 +525,7 @@ def run_c27(ctx, replay):
     for l in vlib.read_ndjson(tp):
         if l["act"]["a"] != "reset":
             by_ep[l["act"]["ep"]] = by_ep.get(l["act"]["ep"], 0) + 1
-            runs += l["obs"]["count"]
+            runs += l["obs"]["count"] + sum(r[2] for step in l["obs"].get("runs", []) for r in step)
     cov = {
         "states": mc.distinct if mc else 1, "transitions": mc.generated if mc else 1, "exhaustive": bool(mc),
         "model_constants": "families " + json.dumps(by_ep, sort_keys=True) + "; alphabet a TAB NL backslash = , A - _ 7 role",
